@@ -1,8 +1,9 @@
 """Memory layouts of caller-supplied matrices: the same values as a C-ordered array, a
-Fortran-ordered copy, a transposed view of a features-by-samples array, or a strided view."""
+Fortran-ordered copy, a transposed view of a features-by-samples array, a strided view, a read-only
+array, or a view with negative strides in both axes."""
 import numpy as np
 
-LAYOUTS = ["C", "F", "T", "S"]
+LAYOUTS = ["C", "F", "T", "S", "R", "N"]
 
 
 def apply(X, layout):
@@ -18,4 +19,9 @@ def apply(X, layout):
         wide[:, ::2] = X
         wide[:, 1::2] = -7.0
         return wide[:, ::2]
+    if layout == "R":          # the caller's array is not writeable
+        X.flags.writeable = False
+        return X
+    if layout == "N":          # reversed copy seen through [::-1, ::-1]
+        return np.ascontiguousarray(X[::-1, ::-1])[::-1, ::-1]
     raise ValueError(layout)
